@@ -212,6 +212,40 @@ def run(ctx, host=None):
         if isinstance(n, ast.Call) and norm(n.func) == 'subprocess.run' and n.args and isinstance(n.args[0], ast.Name):
             arglist = n.args[0].id
     chk.require(arglist is not None, 'call_rsync: the argument list passed to subprocess.run was not found')
+    # the argument list is private to the call: first bound to a fresh list, so that the in-place `+=` of per-call options cannot leak into other transfers
+    def fresh(v):
+        if isinstance(v, (ast.List, ast.ListComp)):
+            return True
+        if isinstance(v, ast.BinOp) and isinstance(v.op, ast.Add):
+            return True   # a + b builds a new list
+        if isinstance(v, ast.Call) and (norm(v.func) in ('list', 'copy.copy', 'copy.deepcopy') or (isinstance(v.func, ast.Attribute) and v.func.attr == 'copy')):
+            return True
+        if isinstance(v, ast.Subscript) and isinstance(v.slice, ast.Slice):
+            return True
+        return False
+    binds = sorted([n for n in walk_local(cr0.node) if isinstance(n, ast.Assign) and isinstance(n.targets[0], ast.Name) and n.targets[0].id == arglist], key=lambda n: n.lineno)
+    inplace = [n for n in walk_local(cr0.node) if (isinstance(n, ast.AugAssign) and isinstance(n.target, ast.Name) and n.target.id == arglist)
+               or (isinstance(n, ast.Call) and isinstance(n.func, ast.Attribute) and isinstance(n.func.value, ast.Name) and n.func.value.id == arglist and n.func.attr in ('append', 'extend', 'insert'))]
+    shared_sources = []
+    for b in binds:
+        if not fresh(b.value):
+            later = [m_ for m_ in inplace if m_.lineno > b.lineno and not any(b2.lineno > b.lineno and b2.lineno < m_.lineno and fresh(b2.value) for b2 in binds)]
+            if later:
+                badopt.append((later[0], f'`{norm(later[0])[:60]}` extends `{norm(b.value)}` in place (the list `{arglist}` is an alias of it, not a copy): per-call options such as the --exclude patterns of the '
+                               'final copy or --link-dest stick to every later transfer of this manager, which then silently copy nothing'))
+            shared_sources.append(b.value)
+    for src_e in shared_sources:
+        # options that come from a shared attribute are read where that attribute is assigned
+        if isinstance(src_e, ast.Attribute) and norm(src_e.value) == 'self':
+            for f3 in prog.all_functions():
+                if f3.cls is cr0.cls and not isinstance(f3.node, ast.Lambda):
+                    for n in walk_local(f3.node):
+                        if isinstance(n, ast.Assign) and any(isinstance(t, ast.Attribute) and t.attr == src_e.attr and norm(t.value) == 'self' for t in n.targets):
+                            for c in const_strings(n.value):
+                                if not isinstance(c, tuple) and c.value.startswith('-'):
+                                    nopt += 1
+                                    if c.value not in ALLOWED_OPTS:
+                                        badopt.append((c, c.value))
     for n in walk_local(cr0.node):
         val = None
         if isinstance(n, ast.Assign) and isinstance(n.targets[0], ast.Name) and n.targets[0].id == arglist:
@@ -263,11 +297,46 @@ def run(ctx, host=None):
     chk.require(nopt >= 4, f'call_rsync: expected at least 4 constant rsync options, found {nopt}')
     if badopt:
         for node, txt in badopt:
+            if 'in place' in txt:
+                chk.bad(R5, 'backup_utils:BackupManager.call_rsync', txt[:70], txt, where=f'disk_objectstore/backup_utils.py:{getattr(node, "lineno", 0)}')
+                continue
             chk.bad(R5, 'backup_utils:BackupManager.call_rsync', f'rsync option {txt}', f'rsync is run with an option that is not in the reviewed table ({sorted(ALLOWED_OPTS)}): options such as '
                     '--size-only/--update/--ignore-existing/--append/--inplace/--ignore-errors/--max-size/--dry-run change which files are transferred or how failures are reported, '
                     'so the backup can silently miss or truncate data', where=f'disk_objectstore/backup_utils.py:{getattr(node, "lineno", 0)}')
     else:
         chk.ok(R5, 'backup_utils:BackupManager.call_rsync', f'{nopt} constant option(s)', detail='all in the reviewed table; per-call extra arguments are --exclude only', evals=nopt)
+
+    # ---------------------------------------------------------------- R6: finished backups sort chronologically by name
+    R6 = chk.rule('C15.R6', 'the name of a finished backup sorts after every earlier one (UTC timestamp, most significant field first): --link-dest and the rotation pick folders by sorted name', 1)
+    baf = prog.fn('backup_utils:BackupManager.backup_auto_folders')
+    stf = [n for n in walk_local(baf.node) if isinstance(n, ast.Call) and isinstance(n.func, ast.Attribute) and n.func.attr == 'strftime']
+    chk.require(stf, 'backup_auto_folders: no strftime() for the folder name found')
+    import re as _re
+    for c in stf:
+        probs = []
+        fmt = fold(prog, c.args[0], baf, {}) if c.args else None
+        fields = _re.findall(r'%[A-Za-z]', fmt) if isinstance(fmt, str) else None
+        if fields != ['%Y', '%m', '%d', '%H', '%M', '%S']:
+            probs.append(f'the format {fmt!r} is not year-month-day-hour-minute-second with fixed-width fields, so names do not sort chronologically')
+        src_ = c.func.value
+        okutc = False
+        if isinstance(src_, ast.Call):
+            fn_ = norm(src_.func)
+            if fn_.endswith('utcnow') and not src_.args:
+                okutc = True
+            elif fn_.endswith('.now') or fn_ == 'now':
+                tz = (src_.args + [k.value for k in src_.keywords if k.arg == 'tz'])[:1]
+                okutc = bool(tz) and norm(tz[0]).split('.')[-1] in ('utc', 'UTC')
+            elif fn_.endswith('fromtimestamp'):
+                tz = (src_.args[1:] + [k.value for k in src_.keywords if k.arg == 'tz'])[:1]
+                okutc = bool(tz) and norm(tz[0]).split('.')[-1] in ('utc', 'UTC')
+        if not okutc:
+            probs.append(f'the timestamp `{norm(src_)}` is not taken in UTC: local time steps backwards at the end of daylight saving time or when TZ changes, so the backup that just '
+                         'completed can sort as the oldest -- the rotation then deletes it and last-backup dangles')
+        if probs:
+            chk.bad(R6, baf.qualname, norm(c)[:90], '; '.join(probs), where=f'{baf.module.relpath}:{c.lineno}')
+        else:
+            chk.ok(R6, baf.qualname, norm(c)[:90], detail='UTC, %Y%m%d%H%M%S')
 
     # ---------------------------------------------------------------- R3
     rest = m.seen.get('rest')
